@@ -7,7 +7,9 @@ impl Clone for EntityUID { #[verifier::external_body] fn clone(&self) -> (r: Sel
 impl Clone for EntityType { #[verifier::external_body] fn clone(&self) -> (r: Self) ensures r == *self { unimplemented!() } }
 #[verifier::external_body] pub struct Eid { _p: u8 }
 #[verifier::external_body] pub struct Entity { _p: u8 }
-#[verifier::external_body] pub struct PartialValue { _p: u8 }
+#[verifier::external_body] pub struct Value { _p: u8 }
+/// ast::PartialValue (same two variants; Value and Expr are opaque here)
+pub enum PartialValue { Value(Value), Residual(Expr) }
 #[verifier::external_body] pub struct SchemaType { _p: u8 }
 #[verifier::external_body] pub struct Extensions<'a> { _p: &'a u8 }
 #[verifier::external_body] pub struct TypeMismatchError { _p: u8 }
@@ -105,16 +107,16 @@ impl Expr {
 }
 /// all sub-expressions of the value written as a restricted expression (RestrictedExpr::from(v).subexpressions() / residual.subexpressions(); trusted)
 pub uninterp spec fn sp_subexprs(v: PartialValue) -> Seq<Expr>;
-#[verifier::external_body] pub fn vx_subexpressions(v: &PartialValue) -> (r: VxIter<&Expr>)
-    ensures r.items().len() == sp_subexprs(*v).len(), forall|i: int| 0 <= i < r.items().len() ==> *(#[trigger] r.items()[i]) == sp_subexprs(*v)[i] { unimplemented!() }
+/// `RestrictedExpr::from(val.clone()).subexpressions()`: every sub-expression of the value written as a restricted expression (trusted enumeration)
+#[verifier::external_body] pub fn vx_value_subexprs(v: &Value) -> (r: VxIter<&Expr>)
+    ensures r.items().len() == sp_subexprs(PartialValue::Value(*v)).len(), forall|i: int| #![trigger r.items()[i]] #![trigger sp_subexprs(PartialValue::Value(*v))[i]] 0 <= i < r.items().len() ==> *r.items()[i] == sp_subexprs(PartialValue::Value(*v))[i] { unimplemented!() }
+/// `e.subexpressions()` (trusted enumeration)
+#[verifier::external_body] pub fn vx_expr_subexprs(e: &Expr) -> (r: VxIter<&Expr>)
+    ensures r.items().len() == sp_subexprs(PartialValue::Residual(*e)).len(), forall|i: int| #![trigger r.items()[i]] #![trigger sp_subexprs(PartialValue::Residual(*e))[i]] 0 <= i < r.items().len() ==> *r.items()[i] == sp_subexprs(PartialValue::Residual(*e))[i] { unimplemented!() }
 /// every entity uid literal anywhere in the value is valid for the schema
 pub open spec fn euids_valid<S: Schema>(schema: &S, v: PartialValue) -> bool {
     forall|i: int| 0 <= i < sp_subexprs(v).len() ==> match (#[trigger] sp_subexprs(v)[i]).spec_kind() { ExprKind::Lit(Literal::EntityUID(u)) => euid_ok(schema, *u), _ => true }
 }
-/// validate_euids_in_partial_value: converts the value to a restricted expression (or takes the residual) and hands ALL its sub-expressions to
-/// validate_euids_in_subexpressions (proved below); the conversion / enumeration is trusted
-#[verifier::external_body] pub fn validate_euids_in_partial_value<S: Schema>(schema: &S, val: &PartialValue) -> (r: std::result::Result<(), ValidateEuidError>)
-    ensures r is Ok <==> euids_valid(schema, *val) { unimplemented!() }
 impl<T> VxIter<T> {
     /// `try_for_each`: Ok iff the closure accepts every item; otherwise the error of the first item it rejects
     #[verifier::external_body]
